@@ -6,13 +6,13 @@ use crate::conn_id::ConnectionId;
 use aldrin_core::message::{ClaimChannelEndResult, CloseChannelEndResult};
 use aldrin_core::ChannelEnd;
 
-fn any_conn() -> ConnectionId {
+pub(crate) fn any_conn() -> ConnectionId {
     let id: u8 = kani::any();
     kani::assume(id < 3);
     ConnectionId(id)
 }
 
-fn any_end_state() -> ChannelEndState {
+pub(crate) fn any_end_state() -> ChannelEndState {
     match kani::any::<u8>() % 3 {
         0 => ChannelEndState::Unclaimed,
         1 => ChannelEndState::Claimed {
@@ -23,7 +23,7 @@ fn any_end_state() -> ChannelEndState {
     }
 }
 
-fn any_end() -> ChannelEnd {
+pub(crate) fn any_end() -> ChannelEnd {
     if kani::any() {
         ChannelEnd::Sender
     } else {
@@ -38,11 +38,11 @@ pub(crate) fn claimed(s: &ChannelEndState) -> Option<(ConnectionId, u32)> {
     }
 }
 
-fn is_unclaimed(s: &ChannelEndState) -> bool {
+pub(crate) fn is_unclaimed(s: &ChannelEndState) -> bool {
     matches!(s, ChannelEndState::Unclaimed)
 }
 
-fn is_closed(s: &ChannelEndState) -> bool {
+pub(crate) fn is_closed(s: &ChannelEndState) -> bool {
     matches!(s, ChannelEndState::Closed)
 }
 
@@ -80,243 +80,249 @@ pub(crate) fn any_channel() -> Channel {
     c
 }
 
-#[kani::proof]
-fn q_c05_channel_base_cases() {
-    let owner = any_conn();
-    let c = Channel::with_claimed_sender(owner);
-    assert!(inv(&c));
-    assert!(claimed(&c.sender) == Some((owner, 0)) && is_unclaimed(&c.receiver));
-    let cap: u32 = kani::any();
-    let c = Channel::with_claimed_receiver(owner, cap);
-    assert!(inv(&c));
-    assert!(claimed(&c.receiver) == Some((owner, cap)) && is_unclaimed(&c.sender));
-}
+#[cfg(any(verif_unit = "all", verif_unit = "channel", verif_unit = "channel_t"))]
+mod harnesses {
+    use super::*;
 
-#[kani::proof]
-fn q_c05_channel_send_item() {
-    let mut c = any_channel();
-    let s0 = claimed(&c.sender);
-    let r0 = claimed(&c.receiver);
-    let r0_unclaimed = is_unclaimed(&c.receiver);
-    let who = any_conn();
-    let res = match c.send_item(&who) {
-        Ok((rcv, add)) => Ok((*rcv, add)),
-        Err(e) => Err(e),
-    };
-    assert!(inv(&c), "send_item preserves the invariant");
-    match res {
-        Ok((rcv, add)) => {
-            let (so, s) = s0.unwrap();
-            let (ro, r) = r0.unwrap();
-            assert!(so == who && rcv == ro, "item accepted only from the sender's owner, routed to the receiver's owner");
-            assert!(s > 0, "never forwarded without sender credit");
-            assert!(r > 0, "never forwarded beyond what the receiver granted");
-            let (_, s1) = claimed(&c.sender).unwrap();
-            let (_, r1) = claimed(&c.receiver).unwrap();
-            assert!(r1 == r - 1, "receiver credit drops by exactly one per forwarded item");
-            match add {
-                None => assert!(s1 == s - 1),
-                Some(d) => {
-                    assert!(d > 0 && s - 1 <= LOW_CAPACITY);
-                    assert!(s1 == s - 1 + d && s1 == r1, "top-up announces exactly the missing credit");
-                }
-            }
-            // the sender is never left at zero while the receiver still has credit
-            assert!(!(s1 == 0 && r1 > 0));
-        }
-        Err(ref e) => {
-            // nothing changed
-            assert!(claimed(&c.sender) == s0 && claimed(&c.receiver) == r0);
-            match e {
-                SendItemError::InvalidSender => assert!(s0.map(|(o, _)| o != who).unwrap_or(true)),
-                SendItemError::ReceiverUnclaimed => assert!(r0_unclaimed && s0.unwrap().0 == who),
-                SendItemError::ReceiverClosed => assert!(r0.is_none() && !r0_unclaimed),
-                SendItemError::CapacityExhausted => {
-                    assert!(s0.unwrap().1 == 0 && r0.unwrap().1 == 0, "cut off only when the announced capacity is really used up");
-                }
-            }
-        }
+    #[kani::proof]
+    fn q_c05_channel_base_cases() {
+        let owner = any_conn();
+        let c = Channel::with_claimed_sender(owner);
+        assert!(inv(&c));
+        assert!(claimed(&c.sender) == Some((owner, 0)) && is_unclaimed(&c.receiver));
+        let cap: u32 = kani::any();
+        let c = Channel::with_claimed_receiver(owner, cap);
+        assert!(inv(&c));
+        assert!(claimed(&c.receiver) == Some((owner, cap)) && is_unclaimed(&c.sender));
     }
-    kani::cover!(matches!(res, Ok((_, Some(_)))));
-    kani::cover!(matches!(res, Ok((_, None))));
-    kani::cover!(matches!(res, Err(SendItemError::CapacityExhausted)));
-    kani::cover!(matches!(res, Err(SendItemError::ReceiverUnclaimed)));
-    kani::cover!(matches!(res, Err(SendItemError::ReceiverClosed)));
-    kani::cover!(matches!(res, Err(SendItemError::InvalidSender)));
-}
 
-#[kani::proof]
-fn q_c05_channel_add_capacity() {
-    let mut c = any_channel();
-    let s0 = claimed(&c.sender);
-    let r0 = claimed(&c.receiver);
-    let who = any_conn();
-    let cap: u32 = kani::any();
-    let res = match c.add_capacity(&who, cap) {
-        Ok(Some((snd, d))) => Ok(Some((*snd, d))),
-        Ok(None) => Ok(None),
-        Err(e) => Err(e),
-    };
-    assert!(inv(&c), "add_capacity preserves the invariant");
-    let s1 = claimed(&c.sender);
-    let r1 = claimed(&c.receiver);
-    let owner_grant = cap > 0 && r0.map(|(o, _)| o == who).unwrap_or(false);
-    match res {
-        Err(AddCapacityError) => {
-            assert!(owner_grant && r0.unwrap().1.checked_add(cap).is_none(), "error only on overflowing grants by the owner");
-            assert!(s1 == s0 && r1 == r0, "an overflowing grant changes nothing");
-        }
-        Ok(out) => {
-            if !owner_grant {
-                assert!(out.is_none() && s1 == s0 && r1 == r0, "grants of 0 or by a non-owner are ignored");
-            } else {
+    #[kani::proof]
+    fn q_c05_channel_send_item() {
+        let mut c = any_channel();
+        let s0 = claimed(&c.sender);
+        let r0 = claimed(&c.receiver);
+        let r0_unclaimed = is_unclaimed(&c.receiver);
+        let who = any_conn();
+        let res = match c.send_item(&who) {
+            Ok((rcv, add)) => Ok((*rcv, add)),
+            Err(e) => Err(e),
+        };
+        assert!(inv(&c), "send_item preserves the invariant");
+        match res {
+            Ok((rcv, add)) => {
+                let (so, s) = s0.unwrap();
                 let (ro, r) = r0.unwrap();
-                assert!(r1 == Some((ro, r + cap)));
-                match (s0, out) {
-                    (None, o) => assert!(o.is_none() && s1.is_none()),
-                    (Some((so, s)), None) => assert!(s > LOW_CAPACITY && s1 == Some((so, s))),
-                    (Some((so, s)), Some((to, d))) => {
-                        assert!(to == so && s <= LOW_CAPACITY && d > 0);
-                        assert!(s1 == Some((so, s + d)) && s + d == r + cap);
+                assert!(so == who && rcv == ro, "item accepted only from the sender's owner, routed to the receiver's owner");
+                assert!(s > 0, "never forwarded without sender credit");
+                assert!(r > 0, "never forwarded beyond what the receiver granted");
+                let (_, s1) = claimed(&c.sender).unwrap();
+                let (_, r1) = claimed(&c.receiver).unwrap();
+                assert!(r1 == r - 1, "receiver credit drops by exactly one per forwarded item");
+                match add {
+                    None => assert!(s1 == s - 1),
+                    Some(d) => {
+                        assert!(d > 0 && s - 1 <= LOW_CAPACITY);
+                        assert!(s1 == s - 1 + d && s1 == r1, "top-up announces exactly the missing credit");
+                    }
+                }
+                // the sender is never left at zero while the receiver still has credit
+                assert!(!(s1 == 0 && r1 > 0));
+            }
+            Err(ref e) => {
+                // nothing changed
+                assert!(claimed(&c.sender) == s0 && claimed(&c.receiver) == r0);
+                match e {
+                    SendItemError::InvalidSender => assert!(s0.map(|(o, _)| o != who).unwrap_or(true)),
+                    SendItemError::ReceiverUnclaimed => assert!(r0_unclaimed && s0.unwrap().0 == who),
+                    SendItemError::ReceiverClosed => assert!(r0.is_none() && !r0_unclaimed),
+                    SendItemError::CapacityExhausted => {
+                        assert!(s0.unwrap().1 == 0 && r0.unwrap().1 == 0, "cut off only when the announced capacity is really used up");
                     }
                 }
             }
         }
+        kani::cover!(matches!(res, Ok((_, Some(_)))));
+        kani::cover!(matches!(res, Ok((_, None))));
+        kani::cover!(matches!(res, Err(SendItemError::CapacityExhausted)));
+        kani::cover!(matches!(res, Err(SendItemError::ReceiverUnclaimed)));
+        kani::cover!(matches!(res, Err(SendItemError::ReceiverClosed)));
+        kani::cover!(matches!(res, Err(SendItemError::InvalidSender)));
     }
-    kani::cover!(matches!(res, Err(_)));
-    kani::cover!(matches!(res, Ok(Some(_))));
-    kani::cover!(owner_grant && matches!(res, Ok(None)));
-}
 
-#[kani::proof]
-fn q_c05_channel_claim() {
-    let mut c = any_channel();
-    let s0 = claimed(&c.sender);
-    let r0 = claimed(&c.receiver);
-    let s_unclaimed = is_unclaimed(&c.sender);
-    let r_unclaimed = is_unclaimed(&c.receiver);
-    let who = any_conn();
-    if kani::any() {
-        let res = match c.claim_sender(&who) {
-            Ok((o, cap)) => Ok((*o, cap)),
-            Err(e) => Err(e),
-        };
-        assert!(inv(&c));
-        match res {
-            Ok((peer, cap)) => {
-                assert!(s_unclaimed, "an end can be claimed only once");
-                assert!(r0 == Some((peer, cap)), "claimer learns the receiver's current capacity; peer = receiver owner");
-                assert!(claimed(&c.sender) == Some((who, cap)) && claimed(&c.receiver) == r0);
-            }
-            Err(ClaimChannelEndResult::AlreadyClaimed) => assert!(s0.is_some() && claimed(&c.sender) == s0),
-            Err(ClaimChannelEndResult::InvalidChannel) => assert!(is_closed(&c.sender)),
-            Err(_) => panic!("unexpected claim result"),
-        }
-        kani::cover!(res.is_ok());
-    } else {
+    #[kani::proof]
+    fn q_c05_channel_add_capacity() {
+        let mut c = any_channel();
+        let s0 = claimed(&c.sender);
+        let r0 = claimed(&c.receiver);
+        let who = any_conn();
         let cap: u32 = kani::any();
-        let res = match c.claim_receiver(&who, cap) {
-            Ok(o) => Ok(*o),
+        let res = match c.add_capacity(&who, cap) {
+            Ok(Some((snd, d))) => Ok(Some((*snd, d))),
+            Ok(None) => Ok(None),
             Err(e) => Err(e),
         };
-        assert!(inv(&c));
+        assert!(inv(&c), "add_capacity preserves the invariant");
+        let s1 = claimed(&c.sender);
+        let r1 = claimed(&c.receiver);
+        let owner_grant = cap > 0 && r0.map(|(o, _)| o == who).unwrap_or(false);
         match res {
-            Ok(peer) => {
-                assert!(r_unclaimed);
-                assert!(s0.map(|(o, _)| o) == Some(peer));
-                assert!(claimed(&c.receiver) == Some((who, cap)) && claimed(&c.sender) == Some((peer, cap)));
+            Err(AddCapacityError) => {
+                assert!(owner_grant && r0.unwrap().1.checked_add(cap).is_none(), "error only on overflowing grants by the owner");
+                assert!(s1 == s0 && r1 == r0, "an overflowing grant changes nothing");
             }
-            Err(ClaimChannelEndResult::AlreadyClaimed) => assert!(r0.is_some() && claimed(&c.receiver) == r0),
-            Err(ClaimChannelEndResult::InvalidChannel) => assert!(is_closed(&c.receiver)),
-            Err(_) => panic!("unexpected claim result"),
+            Ok(out) => {
+                if !owner_grant {
+                    assert!(out.is_none() && s1 == s0 && r1 == r0, "grants of 0 or by a non-owner are ignored");
+                } else {
+                    let (ro, r) = r0.unwrap();
+                    assert!(r1 == Some((ro, r + cap)));
+                    match (s0, out) {
+                        (None, o) => assert!(o.is_none() && s1.is_none()),
+                        (Some((so, s)), None) => assert!(s > LOW_CAPACITY && s1 == Some((so, s))),
+                        (Some((so, s)), Some((to, d))) => {
+                            assert!(to == so && s <= LOW_CAPACITY && d > 0);
+                            assert!(s1 == Some((so, s + d)) && s + d == r + cap);
+                        }
+                    }
+                }
+            }
         }
-        kani::cover!(res.is_ok());
+        kani::cover!(matches!(res, Err(_)));
+        kani::cover!(matches!(res, Ok(Some(_))));
+        kani::cover!(owner_grant && matches!(res, Ok(None)));
     }
-}
 
-/// `check_close` + `close` as used by `Broker::close_channel_end` / `remove_channel_end`: close is
-/// entered only when `check_close` said Ok (request path), and the channel is removed from the
-/// map when `close` returns `None` (so the invariant is required only when it returns `Some`).
-#[kani::proof]
-fn q_c05_channel_close() {
-    let mut c = any_channel();
-    let s0 = claimed(&c.sender);
-    let r0 = claimed(&c.receiver);
-    let who = any_conn();
-    let end = any_end();
-    let (this0, other0, this_unclaimed, this_closed) = match end {
-        ChannelEnd::Sender => (s0, r0, is_unclaimed(&c.sender), is_closed(&c.sender)),
-        ChannelEnd::Receiver => (r0, s0, is_unclaimed(&c.receiver), is_closed(&c.receiver)),
-    };
-    let (res, was_claimed) = c.check_close(&who, end);
-    // result table of the end state machine
-    if this_unclaimed {
-        assert!(res == CloseChannelEndResult::Ok && !was_claimed, "anyone may close an unclaimed end");
-    } else if this_closed {
-        assert!(res == CloseChannelEndResult::InvalidChannel);
-    } else if this0.unwrap().0 == who {
-        assert!(res == CloseChannelEndResult::Ok && was_claimed);
-    } else {
-        assert!(res == CloseChannelEndResult::ForeignChannel, "only the owner can close a claimed end");
+    #[kani::proof]
+    fn q_c05_channel_claim() {
+        let mut c = any_channel();
+        let s0 = claimed(&c.sender);
+        let r0 = claimed(&c.receiver);
+        let s_unclaimed = is_unclaimed(&c.sender);
+        let r_unclaimed = is_unclaimed(&c.receiver);
+        let who = any_conn();
+        if kani::any() {
+            let res = match c.claim_sender(&who) {
+                Ok((o, cap)) => Ok((*o, cap)),
+                Err(e) => Err(e),
+            };
+            assert!(inv(&c));
+            match res {
+                Ok((peer, cap)) => {
+                    assert!(s_unclaimed, "an end can be claimed only once");
+                    assert!(r0 == Some((peer, cap)), "claimer learns the receiver's current capacity; peer = receiver owner");
+                    assert!(claimed(&c.sender) == Some((who, cap)) && claimed(&c.receiver) == r0);
+                }
+                Err(ClaimChannelEndResult::AlreadyClaimed) => assert!(s0.is_some() && claimed(&c.sender) == s0),
+                Err(ClaimChannelEndResult::InvalidChannel) => assert!(is_closed(&c.sender)),
+                Err(_) => panic!("unexpected claim result"),
+            }
+            kani::cover!(res.is_ok());
+        } else {
+            let cap: u32 = kani::any();
+            let res = match c.claim_receiver(&who, cap) {
+                Ok(o) => Ok(*o),
+                Err(e) => Err(e),
+            };
+            assert!(inv(&c));
+            match res {
+                Ok(peer) => {
+                    assert!(r_unclaimed);
+                    assert!(s0.map(|(o, _)| o) == Some(peer));
+                    assert!(claimed(&c.receiver) == Some((who, cap)) && claimed(&c.sender) == Some((peer, cap)));
+                }
+                Err(ClaimChannelEndResult::AlreadyClaimed) => assert!(r0.is_some() && claimed(&c.receiver) == r0),
+                Err(ClaimChannelEndResult::InvalidChannel) => assert!(is_closed(&c.receiver)),
+                Err(_) => panic!("unexpected claim result"),
+            }
+            kani::cover!(res.is_ok());
+        }
     }
-    if res == CloseChannelEndResult::Ok {
+
+    /// `check_close` + `close` as used by `Broker::close_channel_end` / `remove_channel_end`: close is
+    /// entered only when `check_close` said Ok (request path), and the channel is removed from the
+    /// map when `close` returns `None` (so the invariant is required only when it returns `Some`).
+    #[kani::proof]
+    fn q_c05_channel_close() {
+        let mut c = any_channel();
+        let s0 = claimed(&c.sender);
+        let r0 = claimed(&c.receiver);
+        let who = any_conn();
+        let end = any_end();
+        let (this0, other0, this_unclaimed, this_closed) = match end {
+            ChannelEnd::Sender => (s0, r0, is_unclaimed(&c.sender), is_closed(&c.sender)),
+            ChannelEnd::Receiver => (r0, s0, is_unclaimed(&c.receiver), is_closed(&c.receiver)),
+        };
+        let (res, was_claimed) = c.check_close(&who, end);
+        // result table of the end state machine
+        if this_unclaimed {
+            assert!(res == CloseChannelEndResult::Ok && !was_claimed, "anyone may close an unclaimed end");
+        } else if this_closed {
+            assert!(res == CloseChannelEndResult::InvalidChannel);
+        } else if this0.unwrap().0 == who {
+            assert!(res == CloseChannelEndResult::Ok && was_claimed);
+        } else {
+            assert!(res == CloseChannelEndResult::ForeignChannel, "only the owner can close a claimed end");
+        }
+        if res == CloseChannelEndResult::Ok {
+            let notify = c.close(end).copied();
+            match end {
+                ChannelEnd::Sender => assert!(is_closed(&c.sender) && claimed(&c.receiver) == r0),
+                ChannelEnd::Receiver => assert!(is_closed(&c.receiver) && claimed(&c.sender) == s0),
+            }
+            assert!(notify == other0.map(|(o, _)| o), "peer is told iff it is claimed");
+            if notify.is_some() {
+                assert!(inv(&c), "a channel that stays in the map satisfies the invariant");
+            }
+            kani::cover!(notify.is_some());
+            kani::cover!(notify.is_none());
+        }
+    }
+
+    /// The three internal call sites of `close` (via `remove_channel_end`): shutdown of the owner of a
+    /// claimed end, `send_item` error paths, and an overflowing grant. Precondition at each: the end
+    /// being closed is claimed by the given owner, or (ReceiverUnclaimed path) the receiver is
+    /// unclaimed and the sender claimed.
+    #[kani::proof]
+    fn q_c05_channel_close_internal_sites() {
+        let mut c = any_channel();
+        let end = any_end();
+        let this = match end {
+            ChannelEnd::Sender => claimed(&c.sender),
+            ChannelEnd::Receiver => claimed(&c.receiver),
+        };
+        kani::assume(this.is_some());
+        let other = match end {
+            ChannelEnd::Sender => claimed(&c.receiver),
+            ChannelEnd::Receiver => claimed(&c.sender),
+        };
         let notify = c.close(end).copied();
-        match end {
-            ChannelEnd::Sender => assert!(is_closed(&c.sender) && claimed(&c.receiver) == r0),
-            ChannelEnd::Receiver => assert!(is_closed(&c.receiver) && claimed(&c.sender) == s0),
-        }
-        assert!(notify == other0.map(|(o, _)| o), "peer is told iff it is claimed");
+        assert!(notify == other.map(|(o, _)| o));
         if notify.is_some() {
-            assert!(inv(&c), "a channel that stays in the map satisfies the invariant");
+            assert!(inv(&c));
         }
-        kani::cover!(notify.is_some());
-        kani::cover!(notify.is_none());
     }
-}
 
-/// The three internal call sites of `close` (via `remove_channel_end`): shutdown of the owner of a
-/// claimed end, `send_item` error paths, and an overflowing grant. Precondition at each: the end
-/// being closed is claimed by the given owner, or (ReceiverUnclaimed path) the receiver is
-/// unclaimed and the sender claimed.
-#[kani::proof]
-fn q_c05_channel_close_internal_sites() {
-    let mut c = any_channel();
-    let end = any_end();
-    let this = match end {
-        ChannelEnd::Sender => claimed(&c.sender),
-        ChannelEnd::Receiver => claimed(&c.receiver),
-    };
-    kani::assume(this.is_some());
-    let other = match end {
-        ChannelEnd::Sender => claimed(&c.receiver),
-        ChannelEnd::Receiver => claimed(&c.sender),
-    };
-    let notify = c.close(end).copied();
-    assert!(notify == other.map(|(o, _)| o));
-    if notify.is_some() {
-        assert!(inv(&c));
+    #[kani::proof]
+    fn q_c05_channel_close_receiver_unclaimed_path() {
+        // send_item error ReceiverUnclaimed: close(Receiver) with owner None, then close(Sender).
+        let mut c = any_channel();
+        let who = any_conn();
+        let s0 = claimed(&c.sender);
+        kani::assume(matches!(c.send_item(&who), Err(SendItemError::ReceiverUnclaimed)));
+        let n1 = c.close(ChannelEnd::Receiver).copied();
+        assert!(n1 == Some(who) && s0.unwrap().0 == who, "the sender learns that the receiver end is gone");
+        let n2 = c.close(ChannelEnd::Sender).copied();
+        assert!(n2.is_none(), "then the whole channel goes away");
     }
-}
 
-#[kani::proof]
-fn q_c05_channel_close_receiver_unclaimed_path() {
-    // send_item error ReceiverUnclaimed: close(Receiver) with owner None, then close(Sender).
-    let mut c = any_channel();
-    let who = any_conn();
-    let s0 = claimed(&c.sender);
-    kani::assume(matches!(c.send_item(&who), Err(SendItemError::ReceiverUnclaimed)));
-    let n1 = c.close(ChannelEnd::Receiver).copied();
-    assert!(n1 == Some(who) && s0.unwrap().0 == who, "the sender learns that the receiver end is gone");
-    let n2 = c.close(ChannelEnd::Sender).copied();
-    assert!(n2.is_none(), "then the whole channel goes away");
-}
-
-#[kani::proof]
-#[kani::should_panic]
-fn t_c05_channel_twin_unreachable_is_reachable_without_precondition() {
-    // vacuity witness: without the broker's precondition, `close` does reach its
-    // `unreachable!()` arm, so the harnesses above are not passing for lack of reachable states.
-    let mut c = any_channel();
-    let end = any_end();
-    let _ = c.close(end);
+    #[cfg(any(verif_unit = "all", verif_unit = "channel_t"))]
+    #[kani::proof]
+    #[kani::should_panic]
+    fn t_c05_channel_twin_unreachable_is_reachable_without_precondition() {
+        // vacuity witness: without the broker's precondition, `close` does reach its
+        // `unreachable!()` arm, so the harnesses above are not passing for lack of reachable states.
+        let mut c = any_channel();
+        let end = any_end();
+        let _ = c.close(end);
+    }
 }
